@@ -63,8 +63,9 @@ type Frame struct {
 }
 
 type writeRec struct {
-	comp string
-	ref  string
+	comp  string
+	ref   string
+	reach string // reach of the instruction that wrote (facts about ref are guarded by it)
 }
 
 type writeLog struct {
@@ -252,7 +253,11 @@ func copyMap(m map[string]string) map[string]string {
 
 func (ex *Exec) noteWrite(comp, ref string) {
 	if ex.wlog != nil {
-		ex.wlog.recs = append(ex.wlog.recs, writeRec{comp, ref})
+		r := ex.curReach
+		if r == "" {
+			r = "true"
+		}
+		ex.wlog.recs = append(ex.wlog.recs, writeRec{comp, ref, r})
 	}
 }
 
